@@ -3,11 +3,11 @@ CONSTANTS
   ClearCountsRows = TRUE
   PlainNewline = TRUE
   W = 4
-  Lens <- LensQuick
+  Lens <- LensSmall
   Pairs <- PairsSmall
   MaxN = 2
   MaxSections = 3
-  Depth = 5
+  Depth = 6
   Modes <- MCModes
   Pres <- OnePre
 VIEW HView
